@@ -33,6 +33,12 @@ thread_local! {
 
 fn deal(ctx: &mut Ctx, stream: u64, t: u32, m: &[u8], r: &[u8], tid: u8) -> Result<Share, Violation> {
     let threaded = DEALER_THREADS.with(|d| d.borrow().is_some());
+    // half of the dealers obtain their Commune by CLONING a prototype (share() consumes the value, so
+    // `c.clone().share()` is how several shares of one sharing are made, as the crate's own tests do)
+    let via_clone = ctx.ch.chance(1, 2);
+    if via_clone {
+        ctx.stats.probe("dealers_sharing_a_cloned_commune");
+    }
     let res = if threaded {
         let mut entropy = vec![0u8; 256];
         ctx.os.with_stream(stream, || {
@@ -40,10 +46,18 @@ fn deal(ctx: &mut Ctx, stream: u64, t: u32, m: &[u8], r: &[u8], tid: u8) -> Resu
         });
         let (mm, rr) = (m.to_vec(), r.to_vec());
         DEALER_THREADS.with(|d| {
-            d.borrow_mut().as_mut().unwrap().run(stream as u32, entropy, move || Commune::new(t, mm, rr, transcript(tid)).share().map_err(|e| e.to_string()))
+            d.borrow_mut().as_mut().unwrap().run(stream as u32, entropy, move || {
+                let proto = Commune::new(t, mm, rr, transcript(tid));
+                let c = if via_clone { proto.clone() } else { proto };
+                c.share().map_err(|e| e.to_string())
+            })
         })
     } else {
-        ctx.os.with_stream(stream, || Commune::new(t, m.to_vec(), r.to_vec(), transcript(tid)).share().map_err(|e| e.to_string()))
+        ctx.os.with_stream(stream, || {
+            let proto = Commune::new(t, m.to_vec(), r.to_vec(), transcript(tid));
+            let c = if via_clone { proto.clone() } else { proto };
+            c.share().map_err(|e| e.to_string())
+        })
     };
     res.map_err(|e| Violation::new("c16.share_failed", "share", format!("share() failed for t={} |M|={} |R|={}: {}", t, m.len(), r.len(), e)))
 }
